@@ -1,6 +1,6 @@
 #!/bin/sh
 # usage: tools/try_seed.sh <dir with patch.diff> <Cxx> [<Cxx>...]   - applies the patch to /repo, runs the quick checks, restores /repo
-D=$1; shift
+D=$(realpath $1); shift
 cd /verif || exit 2
 git -C /repo diff --quiet || { echo "/repo has uncommitted changes"; exit 2; }
 git -C /repo apply "$D/patch.diff" || { echo "patch does not apply"; exit 2; }
